@@ -403,6 +403,31 @@ def inclusion_sites(ctx, f, name, _seen=None):
                 out.append((x, x.args[0], set(dom_guard(ctx, f, n.id)), loops))
     return out
 
+def out_of_order(ctx, f, is_first, is_then, within_iteration=True):
+    """[(then node id, first node id)] pairs where a node satisfying is_then(node, cfg) can be followed by one satisfying
+    is_first(node, cfg) on a path that does not pass the head of an outermost loop (i.e. inside one iteration / one call): the
+    'then' action ran before the 'first' one.  Predicates get (cfg node, cfg)."""
+    cfg = cfg_of(f)
+    fors = [n for n in cfg.nodes if n.kind == "for"]
+    heads = {n.id for n in fors if not any(o is not n and any(y is n.ast for s_ in o.ast.body for y in ast.walk(s_)) for o in fors)} if within_iteration else set()
+    firsts = [n for n in cfg.nodes if is_first(n, cfg)]
+    thens = [n for n in cfg.nodes if is_then(n, cfg)]
+    out = []
+    for tn in thens:
+        for fn_ in firsts:
+            if fn_.id != tn.id and cfg.path([s_ for s_, l_ in cfg.succ[tn.id]], fn_.id, deleted=heads, skip_labels=("exc",)) is not None:
+                out.append((tn.id, fn_.id))
+    return out, firsts, thens
+
+
+def node_calls(name, recv_contains=None):
+    """predicate (cfg node, cfg) -> the node contains a call of `name` (on a receiver whose text contains recv_contains)"""
+    def pred(n, cfg):
+        return any(isinstance(x, ast.Call) and fn_name(x) == name and (recv_contains is None or (
+            isinstance(x.func, ast.Attribute) and recv_contains in U(x.func.value))) for x in cfg.node_walk(n.id))
+    return pred
+
+
 def same_object(f, name, nid):
     """(other name, other node id) -> bool: `other name` at that node can hold the very object `name` holds on entry to node nid
     (they share a defining expression, plain aliases followed; reaching definitions, not spelling)"""
